@@ -41,6 +41,39 @@ def fsck(src, img, flags, tag):
     return rc, probs, out
 
 
+def uninit_shadow(path):
+    """clauses of the independent reading that are explained by one phenomenon: the on-disk block bitmap of group g has a
+    clear bit for a bitmap / inode-table block that belongs to ANOTHER group carrying BLOCK_UNINIT (flex_bg places it in g).
+    libext2fs ORs the metadata of BLOCK_UNINIT groups into the bitmap when loading, so e2fsck never sees the clear bit."""
+    try:
+        fs = Fs(path)
+        if not fs.has_group_csum():
+            return set()
+        meta = {}
+        for g, gd in enumerate(fs.groups):
+            if gd["flags"] & extfmt.BG_BLOCK_UNINIT:
+                itb = (fs.inodes_per_group * fs.inode_size + fs.bs - 1) // fs.bs
+                for b in [gd["block_bitmap"], gd["inode_bitmap"]] + list(range(gd["inode_table"], gd["inode_table"] + itb)):
+                    meta[b] = g
+        out = set()
+        for g, gd in enumerate(fs.groups):
+            if gd["flags"] & extfmt.BG_BLOCK_UNINIT:
+                continue
+            bm = fs.block(gd["block_bitmap"])
+            base = fs.group_first_block(g)
+            hit = [b for b in meta if meta[b] != g and base <= b < base + fs.blocks_per_group and not (bm[(b - base) >> 3] >> ((b - base) & 7)) & 1]
+            if hit:
+                out.add("bbitmap: group %d cluster %d: bitmap 0, usage 1" % (g, min(hit) - base))
+                out.add("csum_bitmap: group %d block bitmap checksum" % g)
+        return out
+    except Exception:
+        return set()
+
+
+def only_shadow(path, cons):
+    return bool(cons) and isinstance(cons, list) and set(cons) <= uninit_shadow(path)
+
+
 def journal_crosslinked(path):
     """does some other inode map a block of the internal journal?"""
     try:
@@ -103,12 +136,14 @@ def one_case(src, idx, seed, tier, keep=False):
     recipe = {"base": name, "mke2fs": opts, "size": size, "build_seed": 1 + (idx // 200) % 3, "case_index": idx, "operators": desc}
     cons0 = judge_consistency(img)
     jx = journal_crosslinked(img) if cons0 else False
+    sh0 = only_shadow(img, cons0)
     rc_n, probs_n, out_n = fsck(src, img, ["-fn"], "n1")
     before = open(img, "rb").read() if False else None
     rc_y, probs_y, out_y = fsck(src, img, ["-fy"], "y")
     rc_n2, probs_n2, out_n2 = fsck(src, img, ["-fn"], "n2")
     cons2 = judge_consistency(img) if rc_n2 == 0 else "skipped"
-    res = {"recipe": recipe, "cons0": cons0, "journal_crosslinked": jx, "rc_n": rc_n, "probs_n": probs_n, "rc_y": rc_y, "probs_y": probs_y,
+    sh2 = only_shadow(img, cons2)
+    res = {"shadow0": sh0, "shadow2": sh2, "recipe": recipe, "cons0": cons0, "journal_crosslinked": jx, "rc_n": rc_n, "probs_n": probs_n, "rc_y": rc_y, "probs_y": probs_y,
            "rc_n2": rc_n2, "probs_n2": probs_n2, "cons2": cons2, "out_n": out_n[-400:], "out_n2": out_n2[-600:], "out_y": out_y[-300:]}
     if not keep:
         os.unlink(img)
@@ -194,7 +229,7 @@ def run(res, replay=None):
         if len(res.cov["samples"]) < 3 and c["cons0"]:
             res.sample({"recipe": rec, "independent_reader": c["cons0"][:3], "e2fsck_n_exit": c["rc_n"]})
         if c["rc_n"] == 0 and c["cons0"]:
-            bad.append((rec, c["cons0"], c["out_n"]))
+            bad.append((rec, c["cons0"], c["out_n"], c.get("shadow0")))
         # verdict correspondence: the model's UNCORRECTED bit (from the problem log) must be in the real exit status
         if mexit.strip().isdigit() and int(mexit) & 4 and not (c["rc_n"] & 4) and c["rc_n"] not in (8, 12, -9):
             verdict_bad.append((rec, c["probs_n"][:8], c["rc_n"]))
@@ -205,10 +240,11 @@ def run(res, replay=None):
     res.cov["rule"] = ("images: 6 feature sets populated (htree dir, fragmented extent file, xattrs, links, special files), 1-3 structured corruption operators (bitmaps, descriptor counts/locations, inode fields, extents, "
                        "dirents, checksum-only, noise), checksums re-computed in 70% so the damage is structural; non-trivial = independent reader judges the image inconsistent")
     res.add_obligation("verdict model consistent with every observed exit status", not verdict_bad)
-    for rec, cons, out in bad[:3]:
+    bad.sort(key=lambda b: 1 if b[3] else 0)
+    for rec, cons, out, shadow in bad[:3]:
         res.violation("oracle", {"recipe": rec, "independent_reader": cons[:5], "e2fsck_fn_exit": 0, "e2fsck_output_tail": out[-300:],
                                  "note": "e2fsck -fn exits 0 on an image that violates a consistency invariant"},
-                      signature="c02:" + hashlib.sha256(json.dumps(rec["operators"]).encode()).hexdigest()[:12])
+                      signature="c02:uninit-group-metadata-bit-clear-on-disk" if shadow else "c02:" + hashlib.sha256(json.dumps(rec["operators"]).encode()).hexdigest()[:12])
     for rec, probs, rc in verdict_bad[:2]:
         res.violation("correspondence", {"recipe": rec, "problem_log": probs, "exit": rc,
                                          "note": "problem log contains an unfixed problem but the exit status lacks 'errors left uncorrected'"},
